@@ -11,13 +11,21 @@ PROP = "C12"
 RULE = ("op histories (wf[i]=v, wf[a:b]=v, bind incl. empty / foreign-only maps, flip_wavefunction, save+load) in which EVERY object "
         "the history produced stays alive, later operations address any of them, and after each operation all other objects must "
         "hold exactly what they held; on numeric / symbolic / mixed vectors built "
-        "from Pythagorean rationals, constructor-only cases of every length 0..9, dicke_state for all (n,k) up to the tier's "
-        "width plus invalid requests, the Gosper step on random integers, flip_amplitudes on index vectors, hand-made "
-        "amplitude files; non-trivial: a history with >=1 rejected and >=1 accepted op, a Dicke state with 1<k<n, "
+        "from Pythagorean rationals; BOUNDARY histories: vectors, assignments, bindings and files whose exact sum is 1 + c*tol "
+        "(tol = 1e-8 + 1e-5, c in +-{0.3, 0.7, 0.95, 1.05, 1.5, 4, 30}; numeric part 1 +- a few 1e-6 next to symbols) and "
+        "drift chains (3..40 assignments to one entry / to [:] each within 4.5e-6 of the previous value, together 1.5..3 tol, "
+        "optionally back again) through int, negative, numpy-int and slice keys on 1-d arrays, (n,1) arrays, symbol-free and "
+        "mixed Matrices, interleaved with operations on the other live objects, at widths 1..8 plus 16..1024 amplitudes; "
+        "constructor arguments as list / tuple / complex ndarray / object ndarray / non-contiguous view / sympy Matrix; "
+        "constructor-only cases of every length 0..9, dicke_state for all (n,k) up to the tier's "
+        "width plus invalid requests, the Gosper step on random integers, flip_amplitudes on index vectors (list, tuple, "
+        "ndarray, column, view, complex), hand-made amplitude files read by name / file object / pathlib.Path; non-trivial: a history with >=1 rejected and >=1 accepted op, a Dicke state with 1<k<n, "
         "a flip of >=4 entries, a load/save of a complex vector; distinct = distinct canonical JSON of the case")
 TRUSTED = [
     "np.isclose(s, 1.0) <=> |s-1| <= 1e-8+1e-5 (modelled by isClose; theorems hold for every predicate `close`)",
-    "float rounding: |a|^2 sums are compared with 1 exactly only on inputs where the exact sum is 1 or differs by > 1e-3; "
+    "float rounding: the generators emit a numeric operation only if the exact sum it would produce is 1, or off the "
+    "boundary |s-1| = 1e-8+1e-5 by more than 1e-9 (numeric part next to symbols: off 1 by more than 1e-9, or exactly 1); the "
+    "double-precision sum of <= 1024 squares is within 1e-12 of the exact one, so np.isclose / `> 1.0` decide as the model; "
     "for a MIXED vector whose numeric part is exactly 1 the strict float test `> 1.0` may go either way (such steps are skipped in "
     "the model comparison when non-dyadic numbers are involved, and counted)",
     "numpy: a[p] = v / a[s] = vals writes exactly the addressed positions with (n,)/(n,1) broadcasting; reshape/transpose are "
@@ -142,10 +150,18 @@ def _snap(wf, np, sympy):
         kind = "arr1" if vec.ndim == 1 else ("arr2" if vec.ndim == 2 and vec.shape[1:] == (1,) else "arr?%s" % (vec.shape,))
         flat = vec.reshape(-1)
         return {"kind": kind, "n": len(wf), "v": [["num", float(z.real), float(z.imag)] for z in flat],
-                "exact": [repr(complex(z)) for z in flat]}
+                "exact": [repr(complex(z)) for z in flat], "api": _api_amplitudes(wf, np)}
     ents = [sympy.sympify(x) for x in vec]
     return {"kind": "mat", "n": len(wf), "v": [_lin_of_expr(x, sympy) for x in ents],
-            "exact": [sympy.srepr(x) for x in ents]}
+            "exact": [sympy.srepr(x) for x in ents], "api": None if wf.free_symbols else _api_amplitudes(wf, np)}
+
+
+def _api_amplitudes(wf, np):
+    """what the public `amplitudes` property shows for a symbol-free object (read only, nothing is written to it)"""
+    try:
+        return [[float(complex(z).real), float(complex(z).imag)] for z in np.asarray(wf.amplitudes).reshape(-1)]
+    except Exception as e:  # noqa: BLE001 – judged by the oracle
+        return "raised " + repr(e)[:80]
 
 
 def _entries_sympy(wf, np, sympy):
@@ -216,6 +232,48 @@ def _X(name, coef=1):
     return {"c": [0, 0], "t": [[name, [rat(Fraction(coef)), 0]]]}
 
 
+def _corpus_drift():
+    """drift histories (fixed): 9 assignments, each 3 parts in a million above the previous value of the same entry (or
+    0.75 parts for the whole vector), then one back to the start.  Steps 1..6 stay within the library's tolerance of a
+    unit sum, steps 7..9 leave it; each single step is far below any tolerance relative to the state before it.  Run on
+    every representation (1-d array at three widths, (n,1) array after a binding, symbol-free Matrix) and through every
+    form of key (int, negative int, numpy int, one-element slice with a list or a scalar, [:])."""
+    half = Fraction(1, 2)
+    out = []
+    for nq, style, sgn in [(2, "int", 1), (2, "npint", -1), (2, "slice1", 1), (2, "slice1s", -1), (2, "whole", 1),
+                           (5, "int", -1), (5, "whole", -1), (5, "alt", 1), (10, "int", 1), (10, "slice1", -1)]:
+        n = 2 ** nq
+        pos = [0, 1, n // 2, n - 1]
+        base = [(half, Fraction(0)) if i in pos else (Fraction(0), Fraction(0)) for i in range(n)]
+        f = 1 + sgn * (Fraction(75, 10 ** 8) if style == "whole" else Fraction(3, 10 ** 6))
+        ops = []
+        for step, k in enumerate(list(range(1, 10)) + [0]):
+            st = style if style != "alt" else ["int", "slice1", "npint", "slice1s"][step % 4]
+            v = _j(_scale(base[1], f ** k))
+            if st == "whole":
+                ops.append({"op": "slice", "start": None, "stop": None, "vals": [_j(_scale(z, f ** k)) for z in base]})
+            elif st == "int":
+                ops.append({"op": "set", "i": 1 if step % 2 else 1 - n, "val": v})
+            elif st == "npint":
+                ops.append({"op": "set", "i": 1, "val": v, "np": True})
+            elif st == "slice1":
+                ops.append({"op": "slice", "start": 1, "stop": 2, "vals": [v]})
+            else:
+                ops.append({"op": "slice", "start": 1, "stop": 2, "val": v})
+        out.append({"kind": "ops", "exact": False, "vec": [_j(z) for z in base], "ops": ops})
+    f = 1 + Fraction(3, 10 ** 6)
+    chain = [{"op": "set", "i": 1, "val": _j(_scale((half, Fraction(0)), f ** k))} for k in list(range(1, 10)) + [0]]
+    sym = [_X("x"), ["1/2", 0], ["1/2", 0], ["1/2", 0]]
+    out.append({"kind": "ops", "exact": True, "vec": sym, "ops": [{"op": "bind", "map": [["x", ["1/2", 0]]]}] + chain})
+    out.append({"kind": "ops", "exact": True, "vec": sym, "ops": [{"op": "set", "i": 0, "val": [0, "1/2"]}] + chain})
+    out.append({"kind": "ops", "exact": True, "container": "matrix", "vec": [["1/2", 0]] * 4, "ops": chain})
+    # numeric entries below 1 by 2.5e-6 next to a symbol, creeping up by 1.5e-6 per step: from the second step on they exceed 1
+    lo = half * (1 - Fraction(5, 10 ** 6))
+    out.append({"kind": "ops", "exact": True, "vec": [[0, 0], [rat(lo), 0], ["1/2", 0], ["1/2", 0], ["1/2", 0], _X("y"), [0, 0], [0, 0]],
+                "ops": [{"op": "set", "i": 1, "val": _j(_scale((lo, Fraction(0)), f ** k))} for k in range(1, 8)]})
+    return out
+
+
 def corpus():
     return [
         # F5 (fixed in 3fba136): a rejected slice assignment must leave the vector as it was
@@ -249,6 +307,13 @@ def corpus():
          "ops": [{"op": "flip", "on": 0}, {"op": "reload", "on": 0}, {"op": "bind", "map": [], "on": 0},
                  {"op": "slice", "start": 0, "stop": 2, "vals": [[0, "4/5"], ["3/5", 0]], "on": 0},
                  {"op": "set", "i": 0, "val": [1, 0], "on": 1}, {"op": "set", "i": 1, "val": [0, "-3/5"], "on": 2}]},
+        # approximately normalised from the start (1 + 8e-6: accepted), then a phase change, a flip, a save+load
+        {"kind": "ops", "exact": False, "container": "ndarray", "vec": [["500002/1000000", 0]] * 4,
+         "ops": [{"op": "set", "i": 0, "val": [0, "500002/1000000"]}, {"op": "flip"}, {"op": "reload"},
+                 {"op": "set", "i": 1, "val": ["500008/1000000", 0], "np": True}]},
+        # numeric entries a few parts in a million above 1 next to a symbol: nothing to create
+        {"kind": "ops", "exact": True, "vec": [_X("x"), ["3/5", 0], [0, "800002/1000000"], [0, 0]], "ops": []},
+    ] + _corpus_drift() + [
         {"kind": "dicke", "n": 4, "k": 2},
         {"kind": "dicke", "n": 3, "k": 3},
         {"kind": "dicke", "n": 0, "k": 0},
@@ -310,8 +375,8 @@ def _pool_value(rng, dyadic=False):
     return _mulc((m, Fraction(0)), (Fraction(ph[0]), Fraction(ph[1])))
 
 
-def _gen_numeric_ops(rng, big):
-    nq = rng.choice([0, 1, 1, 2, 2, 2, 3, 3] + ([4, 5] if big else []))
+def _gen_numeric_ops(rng, big, nq=None):
+    nq = rng.choice([0, 1, 1, 2, 2, 2, 3, 3] + ([4, 5] if big else [])) if nq is None else nq
     n = 2 ** nq
     dy = rng.random() < 0.25
     cur = _unit_vector(rng, n, dy)
@@ -567,6 +632,358 @@ def _scatter(rng, case):
     return case
 
 
+# ------------------------------------------------------------------ approximately normalised values, drift histories
+# "sum to 1" is the library's own criterion np.isclose(s, 1.0), i.e. |s - 1| <= 1e-8 + 1e-5.  The histories below live
+# at that boundary: vectors / assignments / bindings / files whose exact sum is 1 + c*tol for c on both sides of 1, and
+# CHAINS of assignments each of which changes one entry (or the whole vector) by a few parts in a million in the same
+# direction, so that every single step is tiny relative to the previous state while the history as a whole leaves the
+# tolerance.  The generator follows the exact rational sums only to stay clear of the float-ambiguous band around the
+# boundary (|.| < BAND); what the implementation has to do is decided by the model and by the oracle, not here.
+LIB_TOL = Fraction(1001, 10 ** 8)
+BAND = Fraction(1, 10 ** 9)
+NEAR_C = [Fraction(3, 10), Fraction(7, 10), Fraction(19, 20), Fraction(21, 20), Fraction(3, 2), Fraction(4), Fraction(30)]
+CONTAINERS = ["list", "list", "tuple", "ndarray", "strided", "ndarray_obj"]
+
+
+def _verdict_numeric(s):
+    d = abs(s - 1)
+    if abs(d - LIB_TOL) < BAND:
+        return None
+    return d <= LIB_TOL
+
+
+def _verdict_mixed(s):
+    if abs(s - 1) < BAND:
+        return None
+    return s <= 1
+
+
+def _rfrac(x, digits=12):
+    return Fraction(round(x * 10 ** digits), 10 ** digits)
+
+
+def _scale(z, f):
+    """z * f, written with at most 15 decimals (keeps the rationals of a long chain short)"""
+    return (_rfrac(z[0] * f, 15), _rfrac(z[1] * f, 15))
+
+
+def _numsum(vec):
+    return sum((_nsq(z) for z in vec if z is not None), Fraction(0))
+
+
+def _bitrev_list(v):
+    n = len(v)
+    nb = n.bit_length() - 1
+    return [v[int(format(i, "0%db" % nb)[::-1], 2) if nb else 0] for i in range(n)]
+
+
+class _NearSim:
+    """the objects of one history (exact rationals; None = symbolic entry) under the property's reading of the
+    operations.  Only used to steer the generated values; never consulted by compare()/oracle()."""
+
+    def __init__(self, vec, mixed):
+        self.objs = [list(vec)]
+        self.mixed = mixed
+
+    def verdict(self, vec):
+        if any(z is None for z in vec):
+            return _verdict_mixed(_numsum(vec))
+        return _verdict_numeric(_numsum(vec))
+
+    def write(self, k, ps, vals):
+        """None: too close to the boundary (do not emit the op); else True/False = accepted/rejected"""
+        new = list(self.objs[k])
+        for p_, v in zip(ps, vals):
+            new[p_] = v
+        v = self.verdict(new)
+        if v:
+            self.objs[k] = new
+        return v
+
+
+def _near_chain(rng, sim, k, on, span, styles):
+    """a drift chain on object k: K assignments v0*f, v0*f^2, ... to one entry (or to the whole vector through [:]),
+    |f - 1| <= 4.5e-6, long enough to carry the sum 1.5 .. 3 spans away.  Returns the ops or None (boundary band hit)."""
+    cur = sim.objs[k]
+    n = len(cur)
+    nz = [i for i, z in enumerate(cur) if z is not None and _nsq(z) != 0]
+    if not nz:
+        return None
+    wmax = max(_nsq(cur[i]) for i in nz)
+    p = rng.choice([i for i in nz if _nsq(cur[i]) * 2 >= wmax])
+    style = rng.choice(styles)
+    weight = _numsum(cur) if style == "whole" else _nsq(cur[p])
+    sgn = rng.choice([1, 1, -1])
+    K = rng.randrange(3, 15)
+    c_total = rng.choice([Fraction(3, 2), Fraction(2), Fraction(3)])
+    delta = c_total * span / (2 * weight * K)
+    cap = Fraction(45, 10 ** 7)
+    if delta > cap:
+        delta = cap
+        K = min(40, int(c_total * span / (2 * weight * delta)) + 1)
+    delta = _rfrac(delta, 10)
+    if delta == 0:
+        return None
+    f = 1 + sgn * delta
+    base = list(cur)
+    ops = []
+    back = rng.random() < 0.3  # come back along the same values afterwards (accepted again once inside the tolerance)
+    ks = list(range(1, K + 1)) + (list(range(K - 1, -1, -1)) if back else [])
+    for step, kk in enumerate(ks):
+        if style == "whole":
+            ps = [q for q in range(n) if base[q] is not None]
+            vals = [_scale(base[q], f ** kk) for q in ps]
+            op = {"op": "slice", "start": None, "stop": None, "vals": [_j(v) for v in vals]}
+        else:
+            ps, vals = [p], [_scale(base[p], f ** kk)]
+            st = style if style != "alt" else ["int", "slice1", "npint", "slice1s"][step % 4]
+            if st == "int":
+                op = {"op": "set", "i": p if step % 2 else p - n, "val": _j(vals[0])}
+            elif st == "npint":
+                op = {"op": "set", "i": p, "val": _j(vals[0]), "np": True}
+            elif st == "slice1":
+                op = {"op": "slice", "start": p, "stop": p + 1, "vals": [_j(vals[0])]}
+            else:
+                op = {"op": "slice", "start": p, "stop": p + 1, "val": _j(vals[0])}
+        if sim.write(k, ps, vals) is None:
+            return None
+        if on is not None:
+            op["on"] = on
+        ops.append(op)
+    return ops
+
+
+def _near_jump(rng, sim, k, on, span, styles):
+    """one assignment that puts the sum at 1 + c*span (c on both sides of +-1), possibly with a change of phase"""
+    cur = sim.objs[k]
+    n = len(cur)
+    nz = [i for i, z in enumerate(cur) if z is not None and _nsq(z) != 0]
+    if not nz:
+        return None
+    p = rng.choice(nz)
+    w = _nsq(cur[p])
+    c = rng.choice(NEAR_C) * rng.choice([1, -1])
+    f = _rfrac(1 + (1 + c * span - _numsum(cur)) / (2 * w), 12)
+    ph = rng.choice(PHASES)
+    val = _mulc(_scale(cur[p], f), (Fraction(ph[0]), Fraction(ph[1])))
+    if sim.write(k, [p], [val]) is None:
+        return None
+    st = rng.choice([s_ for s_ in styles if s_ not in ("whole", "alt")] or ["int"])
+    if st == "int":
+        op = {"op": "set", "i": rng.choice([p, p - n]), "val": _j(val)}
+    elif st == "npint":
+        op = {"op": "set", "i": p, "val": _j(val), "np": True}
+    elif st == "slice1":
+        op = {"op": "slice", "start": p, "stop": p + 1, "vals": [_j(val)]}
+    else:
+        op = {"op": "slice", "start": p, "stop": p + 1, "val": _j(val)}
+    if on is not None:
+        op["on"] = on
+    return [op]
+
+
+def _near_other(rng, sim, k, on, dy, arr):
+    """an ordinary operation on object k: change of phase (accepted), pool value (mostly rejected), permutation through
+    a slice, flip, save+load, bind with a foreign map"""
+    cur = sim.objs[k]
+    n = len(cur)
+    t = rng.random()
+    op = None
+    if t < 0.3:
+        nums = [i for i, z in enumerate(cur) if z is not None]
+        if not nums:
+            return None
+        p = rng.choice(nums)
+        ph = rng.choice(PHASES)
+        val = _mulc(cur[p], (Fraction(ph[0]), Fraction(ph[1])))
+        if sim.write(k, [p], [val]) is None:
+            return None
+        op = {"op": "set", "i": rng.choice([p, p - n]), "val": _j(val)}
+    elif t < 0.5:
+        p = rng.randrange(n)
+        val = _pool_value(rng, dy)
+        if sim.write(k, [p], [val]) is None:
+            return None
+        op = {"op": "set", "i": p, "val": _j(val)}
+    elif t < 0.65 and arr:
+        a, b = sorted([rng.randrange(0, n + 1), rng.randrange(0, n + 1)])
+        ps = list(range(a, b))
+        vals = [cur[q] for q in ps]
+        rng.shuffle(vals)
+        if sim.write(k, ps, vals) is None:
+            return None
+        op = {"op": "slice", "start": a, "stop": b, "vals": [_j(v) for v in vals]}
+    elif t < 0.8:
+        if sim.mixed and any(z is None for z in cur):
+            return None
+        op = {"op": "flip"}
+        sim.objs.append(_bitrev_list(cur))
+    elif t < 0.92:
+        if any(z is None for z in cur):
+            return None
+        op = {"op": "reload"}
+        sim.objs.append(list(cur))
+    else:
+        if any(z is None for z in cur):
+            return None
+        op = {"op": "bind", "map": [["gamma", _j(_pool_value(rng, dy))]]}
+    if on is not None:
+        op["on"] = on
+    return [op]
+
+
+def _gen_near_ops(rng, big, wide=None):
+    """histories at the tolerance boundary on every representation an object can have (1-d ndarray from any container,
+    (n,1) ndarray after a complete binding or from a Matrix, symbol-free Matrix, Matrix with symbols left)"""
+    for _attempt in range(20):
+        flavour = rng.choice(["arr1", "arr1", "arr1", "arr2", "arr2m", "matnum", "mixed", "bindnear"])
+        nq = rng.choice([1, 1, 2, 2, 2, 3] + ([3, 4] if big else []))
+        if flavour == "arr1" and rng.random() < 0.1:
+            nq = 0
+        if wide is not None:
+            nq = wide
+        n = 2 ** nq
+        dy = rng.random() < 0.25
+        target = _unit_vector(rng, n, dy)
+        case = {"kind": "ops", "exact": True, "vec": None, "ops": []}
+        ops = []
+        nonzero = [i for i in range(n) if _nsq(target[i]) != 0]
+        zero = [i for i in range(n) if _nsq(target[i]) == 0]
+        mixed = flavour == "mixed"
+        multi = False
+        if flavour == "arr1":
+            case["exact"] = rng.random() < 0.2
+            if not case["exact"]:
+                case["container"] = rng.choice(CONTAINERS)
+            vec = [_j(z) for z in target]
+            state = list(target)
+            styles = ["int", "int", "npint", "slice1", "slice1s", "alt", "whole"]
+            multi = rng.random() < 0.5
+        elif flavour == "arr2m":
+            case["container"] = "matrix"
+            vec = [_j(z) for z in target]
+            state = list(target)
+            styles = ["int", "npint", "slice1", "slice1s", "alt"]
+        elif flavour in ("arr2", "matnum", "bindnear"):
+            spos = rng.sample(nonzero, min(len(nonzero), rng.randrange(1, 3)))
+            if flavour == "bindnear":
+                spos = spos[:1]
+            vec = [_j(z) for z in target]
+            good = {}
+            for p_, nm in zip(spos, ["x", "y"]):
+                coef = rng.choice([Fraction(1), Fraction(1, 2), Fraction(-1), Fraction(2)])
+                good[nm] = (p_, coef, _mulc(target[p_], (1 / coef, Fraction(0))))
+                vec[p_] = {"c": [0, 0], "t": [[nm, [rat(coef), 0]]]}
+            state = list(target)
+            if flavour == "arr2":
+                ops.append({"op": "bind", "map": [[nm, _j(g[2])] for nm, g in sorted(good.items())]})
+                styles = ["int", "npint", "slice1", "slice1s", "alt"]
+            elif flavour == "matnum":
+                for nm, g in sorted(good.items()):
+                    ops.append({"op": "set", "i": g[0], "val": _j(target[g[0]])})
+                styles = ["int", "npint"]
+            else:
+                # bindings whose value is off by a few parts in a million: rejected outside the tolerance (the object
+                # keeps its symbol), accepted inside (the (n,1) array that results is approximately normalised)
+                nm, g = sorted(good.items())[0]
+                w = _nsq(target[g[0]])
+                bound = False
+                for _ in range(rng.randrange(1, 5)):
+                    c = rng.choice(NEAR_C) * rng.choice([1, -1])
+                    f = _rfrac(1 + c * LIB_TOL / (2 * w), 12)
+                    st2 = list(target)
+                    st2[g[0]] = _scale(target[g[0]], f)
+                    v = _verdict_numeric(_numsum(st2))
+                    if v is None:
+                        continue
+                    ops.append({"op": "bind", "map": [[nm, _j(_scale(g[2], f))]]})
+                    if v:
+                        state, bound = st2, True
+                        break
+                if not bound:
+                    ops.append({"op": "bind", "map": [[nm, _j(g[2])]]})
+                styles = ["int", "npint", "slice1", "slice1s", "alt"]
+        else:  # mixed: symbols stay; the numeric entries start a few parts in a million below 1
+            if not zero or not nonzero:
+                continue
+            spos = rng.sample(zero, rng.randrange(1, min(len(zero), 2) + 1))
+            p0 = rng.choice(nonzero)
+            gap = Fraction(rng.choice([3, 5, 8]), 10 ** 6)
+            state = list(target)
+            state[p0] = _scale(target[p0], _rfrac(1 - gap / (2 * _nsq(target[p0])), 12))
+            if _verdict_mixed(_numsum(state)) is not True:
+                continue
+            vec = [_j(z) for z in state]
+            for p_, nm in zip(spos, ["x", "y"]):
+                vec[p_] = _X(nm, rng.choice([1, Fraction(1, 2), -1]))
+                state[p_] = None
+            styles = ["int", "npint"]
+        span = LIB_TOL if not mixed else (1 - _numsum(state))
+        sim = _NearSim(state, mixed)
+        # approximately normalised right from the constructor (numeric flavours built from numbers only)
+        if flavour in ("arr1", "arr2m") and rng.random() < 0.35 and nonzero:
+            p_ = rng.choice(nonzero)
+            c = rng.choice(NEAR_C) * rng.choice([1, -1])
+            if rng.random() < 0.5:
+                f = _rfrac(1 + c * LIB_TOL / (2 * _nsq(target[p_])), 12)
+                st2 = list(target)
+                st2[p_] = _scale(target[p_], f)
+            else:
+                f = _rfrac(1 + c * LIB_TOL / 2, 12)
+                st2 = [_scale(z, f) for z in target]
+            v = _verdict_numeric(_numsum(st2))
+            if v is None:
+                continue
+            vec = [_j(z) for z in st2]
+            if not v:
+                case["vec"] = vec
+                return case  # the constructor must refuse
+            sim = _NearSim(st2, False)
+        case["vec"] = vec
+        ok = True
+        arr = flavour in ("arr1", "arr2", "arr2m", "bindnear")
+        for _seg in range(rng.randrange(1, 4 if big else 3)):
+            k = rng.randrange(len(sim.objs)) if multi else len(sim.objs) - 1
+            on = k if multi else None
+            t = rng.random()
+            if t < 0.55:
+                seg = _near_chain(rng, sim, k, on, span, [s_ for s_ in styles if s_ != "whole" or len(sim.objs[k]) > 1])
+                if seg is not None and multi and len(sim.objs) > 1 and rng.random() < 0.6:
+                    # interleave operations on the OTHER live objects between the steps of the chain
+                    mixed_seg = []
+                    for op in seg:
+                        mixed_seg.append(op)
+                        if rng.random() < 0.2:
+                            k2 = rng.choice([j for j in range(len(sim.objs)) if j != k])
+                            extra = _near_other(rng, sim, k2, k2, dy, True)
+                            if extra:
+                                mixed_seg += extra
+                    seg = mixed_seg
+            elif t < 0.8:
+                seg = []
+                for _ in range(rng.randrange(1, 4)):
+                    j_ = _near_jump(rng, sim, k, on, span, styles)
+                    if j_ is None:
+                        seg = None
+                        break
+                    seg += j_
+            else:
+                seg = _near_other(rng, sim, k, on, dy, arr)
+                if seg is None:
+                    seg = []
+            if seg is None:
+                ok = False
+                break
+            ops += seg
+        if not ok:
+            continue
+        case["ops"] = ops
+        return case
+    return {"kind": "ops", "exact": False, "vec": [[1, 0], [0, 0]], "ops": []}
+
+
+FLIP_ARGS = ["list", "tuple", "ndarray", "col", "strided", "complex"]
+
 EXPR_CASES = [
     (["cos(t)", "sin(t)"], [{"t": "3/10"}]),
     (["cos(t)", "I*sin(t)", "0", "0"], [{"t": "7/5"}]),
@@ -595,12 +1012,29 @@ def generate(rng, tier):
             else:
                 vec = ([_X("x")] + [[0, 0]] * (n - 1)) if n else []
             cases.append({"kind": "ops", "exact": variant == 2, "vec": vec, "ops": []})
+            # the same vector handed over as a tuple, a complex / object ndarray, a non-contiguous view, a sympy Matrix
+            if variant < 2 and n < 10:
+                for how in ["tuple", "ndarray", "ndarray_obj", "strided", "matrix"]:
+                    cases.append({"kind": "ops", "exact": how == "matrix", "vec": vec, "ops": [], "container": how})
+    for how in ["list", "tuple", "ndarray", "ndarray_obj", "strided", "matrix"]:
+        # normalised / far off / just outside the library's tolerance, per container
+        for vec in ([["3/5", 0], [0, "4/5"]], [["3/5", 0], [0, "3/5"]], [["3/5", 0], [0, "800012/1000000"]],
+                    [["1/2", 0]] * 3 + [["500025/1000000", 0]], [["1/2", 0]] * 3 + [["499975/1000000", 0]]):
+            cases.append({"kind": "ops", "exact": how == "matrix", "vec": vec, "container": how,
+                          "ops": [{"op": "set", "i": 0, "val": vec[0]}, {"op": "flip"}]})
+    # wide registers (a few): ordinary and boundary histories on 16 .. 1024 amplitudes
+    for nq in ([4, 5, 6, 9] if not big else [4, 5, 5, 6, 6, 7, 8, 9, 10, 10]):
+        cases.append(_gen_numeric_ops(rng, big, nq))
+        cases.append(_gen_near_ops(rng, big, nq))
+        cases.append(_gen_near_ops(rng, big, nq))
     for _ in range(3000 if big else 180):
         cases.append(_scatter(rng, _gen_numeric_ops(rng, big)))
     for _ in range(3000 if big else 180):
         cases.append(_scatter(rng, _gen_symbolic_ops(rng, big)))
     for _ in range(2500 if big else 160):
         cases.append(_gen_alias_ops(rng, big))
+    for _ in range(2500 if big else 170):
+        cases.append(_gen_near_ops(rng, big))
     for exprs, binds in EXPR_CASES:
         cases.append({"kind": "expr", "vec": exprs, "binds": binds})
     # Dicke states: all (n, k) up to the width, and invalid requests
@@ -617,6 +1051,10 @@ def generate(rng, tier):
         cases.append({"kind": "gosper", "v": v})
     for n in list(range(1, 20)) + [32, 64, 128] + ([256, 1024] if big else []):
         cases.append({"kind": "flip", "n": n})
+    # the same permutation whatever the argument is: tuple, ndarray, (n,1) column, non-contiguous view, complex values
+    for n in [1, 2, 4, 8, 16, 32] + ([64, 512] if big else []):
+        for how in FLIP_ARGS[1:]:
+            cases.append({"kind": "flip", "n": n, "as": how})
     for _ in range(400 if big else 25):
         nq = rng.randrange(0, 4)
         vec = _unit_vector(rng, 2 ** nq)
@@ -630,6 +1068,12 @@ def generate(rng, tier):
             c["imag"] = c["imag"] + [0]
         elif t < 0.4:
             c["real"][0] = rat(unrat(c["real"][0]) + Fraction(1, 2))
+        elif t < 0.65:
+            # a file that is only approximately normalised: 1 + c*tol on either side of the library's tolerance
+            f = _rfrac(1 + rng.choice(NEAR_C) * rng.choice([1, -1]) * LIB_TOL / 2, 12)
+            scaled = [_scale(z, f) for z in vec]
+            if _verdict_numeric(_numsum(scaled)) is not None:
+                c["real"], c["imag"] = [rat(z[0]) for z in scaled], [rat(z[1]) for z in scaled]
         cases.append(c)
     return cases
 
@@ -655,11 +1099,39 @@ def nontrivial(c):
 
 
 # ------------------------------------------------------------------ running the real code
+def _build_vec(c, np, sympy):
+    """the constructor argument in the container the case asks for (a fresh one per call: nothing else refers to it)"""
+    vals = [_to_py(e, c["exact"], sympy) for e in c["vec"]]
+    how = c.get("container", "list")
+    if how == "tuple":
+        return tuple(vals)
+    if how == "ndarray":
+        return np.array(vals, dtype=complex)
+    if how == "ndarray_obj":
+        a = np.empty(len(vals), dtype=object)
+        a[:] = vals
+        return a
+    if how == "strided":
+        a = np.zeros(2 * len(vals), dtype=complex)
+        a[::2] = vals
+        a[1::2] = 7.0
+        return a[::2]
+    if how == "matrix":
+        return sympy.Matrix(vals)
+    return vals
+
+
 def _apply_op(W, np, sympy, wf, op, exact):
     """returns (wf_after, outcome, extra)"""
     extra = {}
     try:
-        if op["op"] == "set":
+        if op["op"] == "set" and op.get("np"):
+            # numpy scalars as index and value: the same assignment
+            val = _to_py(op["val"], exact, sympy)
+            if isinstance(val, (float, complex)):
+                val = np.complex128(val) if isinstance(val, complex) else np.float64(val)
+            wf[np.int64(op["i"])] = val
+        elif op["op"] == "set":
             wf[op["i"]] = _to_py(op["val"], exact, sympy)
         elif op["op"] == "slice":
             key = slice(op.get("start"), op.get("stop"))
@@ -701,7 +1173,7 @@ def run_impl(c):
     if k == "ops":
         exact = c["exact"]
         try:
-            wf = W.Wavefunction([_to_py(e, exact, sympy) for e in c["vec"]])
+            wf = W.Wavefunction(_build_vec(c, np, sympy))
         except ValueError as e:
             return {"init": "err:value", "msg": str(e)[:60]}
         probs0 = _probs(wf, np)
@@ -787,15 +1259,31 @@ def run_impl(c):
         return {"next": int(nxt), "msb": int(W._most_significant_set_bit(int(nxt))), "lowbit": c["v"] & -c["v"]}
     if k == "flip":
         n = c["n"]
+        how = c.get("as", "list")
+        first = list(range(n))
+        if how == "tuple":
+            first = tuple(first)
+        elif how == "ndarray":
+            first = np.arange(n)
+        elif how == "col":
+            first = np.arange(n).reshape(n, 1)
+        elif how == "strided":
+            first = np.repeat(np.arange(n), 2)[::2]
+        elif how == "complex":
+            first = [complex(i, -i) for i in range(n)]
         try:
-            a = W.flip_amplitudes(list(range(n)))
+            a = W.flip_amplitudes(first)
         except (TypeError, ValueError, IndexError) as e:
             return {"err": _err(e)}
         raw = a
-        a = [int(x) for x in a]
+        flat = np.asarray(a).reshape(-1)
+        if how == "complex" and any(complex(x).imag != -complex(x).real for x in flat):
+            return {"res": ["imaginary parts do not follow the real parts"]}
+        a = [int(complex(x).real) for x in flat]
         res = {"res": a}
         if len(a) == n:
             res["twice"] = [int(x) for x in W.flip_amplitudes(a)]
+        res["first_arg_intact"] = [int(complex(x).real) for x in np.asarray(first).reshape(-1)] == list(range(n))
         # results are values / arguments are not modified: scribble over the returned array, call again on an ndarray
         try:
             if isinstance(raw, np.ndarray) and raw.flags.writeable:
@@ -819,19 +1307,31 @@ def run_impl(c):
         try:
             with open(path, "w") as f:
                 json.dump({"amplitudes": d}, f)
+            import pathlib
+            other_sources = {}
+            for label, opener in (("file object", lambda: open(path)), ("pathlib.Path", lambda: pathlib.Path(path))):
+                try:
+                    src = opener()
+                    try:
+                        other_sources[label] = _snap(W.load_wavefunction(src), np, sympy)
+                    finally:
+                        if hasattr(src, "close"):
+                            src.close()
+                except Exception as e:  # noqa: BLE001 – judged by the oracle
+                    other_sources[label] = "raised " + type(e).__name__ + ": " + str(e)[:60]
             try:
                 wf = W.load_wavefunction(path)
             except ValueError as e:
-                return {"err": "err:value", "msg": str(e)[:60]}
+                return {"err": "err:value", "msg": str(e)[:60], "other_sources": other_sources}
             s1 = _snap(wf, np, sympy)
-            W.save_wavefunction(wf, path2)
+            W.save_wavefunction(wf, pathlib.Path(path2) if len(c["real"]) % 2 else path2)
             saved_intact = _snap(wf, np, sympy)["exact"] == s1["exact"]
             try:
                 wf2 = W.load_wavefunction(path2)
             except ValueError as e:
                 return {"snap": s1, "reload_error": str(e)[:80]}
             s2 = _snap(wf2, np, sympy)
-            res = {"snap": s1, "again": s2, "saved_intact": saved_intact}
+            res = {"snap": s1, "again": s2, "saved_intact": saved_intact, "other_sources": other_sources}
             # two loads of one file are two objects: an accepted assignment on one must not reach the other
             try:
                 wf3 = W.load_wavefunction(path2)
@@ -849,7 +1349,7 @@ def run_impl(c):
 
 # ------------------------------------------------------------------ model requests / comparison
 def _strip_on(op):
-    return {kk: v for kk, v in op.items() if kk != "on"}
+    return {kk: v for kk, v in op.items() if kk not in ("on", "np")}
 
 
 def _lineages(c, out):
@@ -871,7 +1371,8 @@ def requests(c, out):
     k = c["kind"]
     if k == "ops":
         lins = _lineages(c, out)
-        return [("run", {"vec": c["vec"], "col": False, "ops": [_strip_on(c["ops"][t]) for t in lin]}) for lin in lins]
+        col = c.get("container") == "matrix"
+        return [("run", {"vec": c["vec"], "col": col, "ops": [_strip_on(c["ops"][t]) for t in lin]}) for lin in lins]
     if k == "dicke":
         return [("dicke", {"n": c["n"], "k": c["k"]})]
     if k == "gosper":
@@ -1024,7 +1525,10 @@ def compare(c, out, resp):
 
 
 # ------------------------------------------------------------------ the property oracle (implementation only)
-NORM_TOL = 2e-5
+# "squared magnitudes sum to 1" is read with the tolerance the library itself uses when it creates an object
+# (np.isclose(s, 1.0): |s - 1| <= 1e-8 + 1e-5); 1e-9 on top for the order of summation.  Every way of obtaining an
+# object ends in that test, so an object further away than this is one the constructor itself refuses.
+NORM_TOL = 1e-8 + 1e-5 + 1e-9
 
 
 def _snap_numsq(snap):
@@ -1108,7 +1612,7 @@ def oracle(c, out):
             return ("ctor-accepts-invalid", f"Wavefunction({c['vec']}) was created although {msg}")
         pf = _probs_fail(prev, init["probs"])
         if pf:
-            return ("probabilities", pf)
+            return ("probabilities", f"Wavefunction({c['vec']}): {pf}")
         held = [prev]  # what every live object holds (results are values: only the object operated on may change)
         for t, (op, st) in enumerate(zip(c["ops"], out["steps"])):
             k, r, snaps = st["target"], st["result"], st["snaps"]
@@ -1218,10 +1722,16 @@ def oracle(c, out):
         if out.get("again") != want:
             return ("flip-shared-result", f"flip_amplitudes(range({n})) called again after its first result was overwritten "
                                           f"gives {out.get('again', [])[:8]}…, bit reversal is {want[:8]}…")
-        if out.get("arg_intact") is False:
-            return ("flip-modifies-argument", f"flip_amplitudes modified its argument np.arange({n})")
+        if out.get("arg_intact") is False or out.get("first_arg_intact") is False:
+            return ("flip-modifies-argument", f"flip_amplitudes modified its argument ({c.get('as', 'list')} of range({n}))")
         return None
     if k == "load":
+        # the file's name, an open file object and a pathlib.Path are the same source
+        for label, got in sorted(out.get("other_sources", {}).items()):
+            if isinstance(got, dict):
+                msg = _inv_fail(got)
+                if msg:
+                    return ("ctor-accepts-invalid", f"load_wavefunction({label}) created an object although {msg}")
         if "err" in out:
             return None
         msg = _inv_fail(out["snap"])
@@ -1233,6 +1743,11 @@ def oracle(c, out):
             want = [repr(complex(a, b)) for a, b in zip(re_, im_)]
             if out["snap"]["exact"] != want:
                 return ("saveload-differs", f"loaded amplitudes {out['snap']['exact']} differ from the file contents {want}")
+        for label, got in sorted(out.get("other_sources", {}).items()):
+            shown = got["exact"] if isinstance(got, dict) else got
+            if shown != out["snap"]["exact"]:
+                return ("saveload-differs", f"the same file loaded through a {label} gives {shown}, through its name "
+                                            f"{out['snap']['exact']}")
         if "reload_error" in out:
             return ("saveload-raise", f"saving the loaded wavefunction {out['snap']['exact']} and loading it again raised "
                                       f"ValueError: {out['reload_error']}")
@@ -1264,6 +1779,11 @@ def _probs_fail(snap, probs):
     s, allnum = _snap_numsq(snap)
     if not allnum:
         return None
+    api = snap.get("api")
+    if api is not None:
+        if isinstance(api, str) or len(api) != len(snap["v"]) or any(
+                abs(a[0] - e[1]) > 1e-12 or abs(a[1] - e[2]) > 1e-12 for a, e in zip(api, snap["v"])):
+            return f"wf.amplitudes shows {api} while the object holds {_show(snap)}"
     if probs is None or len(probs) != len(snap["v"]):
         return f"get_probabilities returned {probs} for {_show(snap)}"
     for e, p in zip(snap["v"], probs):
@@ -1345,7 +1865,29 @@ def distribution(cases, outs):
                 own = {nm for e in st["snaps"][st["target"]]["v"] if e[0] == "lin" for nm, _, _ in e[3]}
                 if st["new"] is not None and not (own & {nm for nm, _ in op["map"]}):
                     trivial_binds += 1
-    return {"live_objects_per_history": {str(k_): v for k_, v in sorted(objs_hist.items())},
+    near_states = near_rejected = near_ctor_rejected = 0
+    containers = {}
+    for c, o in zip(cases, outs):
+        if c["kind"] != "ops" or not isinstance(o, dict) or "init" not in o:
+            continue
+        containers[c.get("container", "list")] = containers.get(c.get("container", "list"), 0) + 1
+        if isinstance(o["init"], str):
+            nums = [_frac_pair(e) for e in c["vec"] if _is_num(e)]
+            if len(c["vec"]) and not len(c["vec"]) & (len(c["vec"]) - 1) and abs(sum(_nsq(z) for z in nums) - 1) < Fraction(1, 1000):
+                near_ctor_rejected += 1
+            continue
+        prev = o["init"]["snap"]
+        for st in o["steps"]:
+            sq, _all = _snap_numsq(st["snap"])
+            if 1e-9 < abs(sq - 1) < 1e-3:
+                if st["out"] == "ok":
+                    near_states += 1
+                else:
+                    near_rejected += 1
+    return {"states_within_1e-3_of_unit_sum_but_not_exact_after_accepted_op": near_states,
+            "ops_rejected_on_such_states": near_rejected, "constructor_refusals_within_1e-3_of_unit_sum": near_ctor_rejected,
+            "constructor_argument_kinds": containers,
+            "live_objects_per_history": {str(k_): v for k_, v in sorted(objs_hist.items())},
             "ops_on_an_earlier_object": earlier, "binds_with_empty_or_foreign_map_giving_a_new_object": trivial_binds,
             "op_kinds": ops, "op_outcomes": outcomes, "representation_after_op": kinds,
             "histories_with_accepted_and_rejected": hist_mixed,
